@@ -1,8 +1,8 @@
 (* Extraction of the schema codec model + the generated schema table (C04, C17, C20). *)
 Require Extraction.
 From Coq Require Import ExtrOcamlBasic.
-From KV Require Import Lib.Bits Lib.Bytes Lib.Varint Model.Schema Gen.Schemas.
+From KV Require Import Lib.Bits Lib.Bytes Lib.Varint Model.Schema Gen.Schemas Golden.Schemas.
 Extraction Language OCaml.
 Extraction "c04_model.ml"
-  schemas encode decode zero write_request write_response read_response read_request lookup_schema
+  schemas golden_schemas encode decode zero write_request write_response read_response read_request lookup_schema
   put_uvarint put_bes put_be.
